@@ -786,6 +786,21 @@ def _check_brackets(plan: dict, sim: Any, dep: Any, pruners: list[Any], study0: 
         ref_hb._try_initialization(ref_study)
         if len(ref_hb._pruners) == 0 or ref_hb._n_brackets != hb._n_brackets:
             continue
+        # ... and the pruner object of the run, asked about a study with ANOTHER name, must
+        # answer like a fresh pruner too (its answers for the first study must not stick)
+        other = optuna.create_study(storage=ref_st, study_name=name + "-other", direction="minimize", load_if_exists=True)
+        for i in range(len(other.get_trials(deepcopy=False)), min(nmax + 1, 12)):
+            other.add_trial(optuna.trial.create_trial(state=TrialState.COMPLETE, value=float(i), intermediate_values={0: float(i)}))
+        ref_hb2 = optuna.pruners.HyperbandPruner(min_resource=hb._min_resource, max_resource=hb._max_resource, reduction_factor=hb._reduction_factor, bootstrap_count=hb._bootstrap_count)
+        ref_hb2._try_initialization(other)
+        if len(ref_hb2._pruners) != 0 and ref_hb2._n_brackets == hb._n_brackets:
+            for t2 in other.get_trials(deepcopy=False):
+                a2 = bracket(hb, other, t2)
+                b2 = bracket(ref_hb2, other, t2)
+                sim.count("bracket_compared_other_study")
+                sim.note("bracket2", t2.number, a2, b2)
+                if a2 != b2:
+                    return ("depends on the pruner object's past", "the run's pruner object puts trial number %d of study %r into bracket %r, a fresh pruner with the same parameters into bracket %r (after it had served study %r)" % (t2.number, name + "-other", a2, b2, name))
         for t in main_trials:
             a = bracket(hb, study0, t)
             b = bracket(ref_hb, ref_study, ref_trials[t.number])
